@@ -6,6 +6,13 @@
 //!   B  10000..  pure codec ties: crc32 / crc16 / TD0 sector records / IMD track buffers / chunk walks
 //!   C  20000..  images a2kit *loads* (foreign but valid byte streams built here), same oracle as A
 //!   D  30000..  replay of the candidate defect DESIGN §9 item 27 (WOZ2 with non-creator chunk order)
+//!   E  40000..  one directed case per hazardous metadata value class
+//!   F  50000..  LOADED IMD / TD0 images with mixed sector record types / flags / encodings (built as bytes by the
+//!               independent encoder of `c08::mix`): random sequences of sector writes, notes / comment edits of
+//!               other lengths (also where there was no comment block), saves and reloads on the SAME object;
+//!               every step on the real object and on the Lean object model (`c09 imdseq|td0seq`), saved bytes
+//!               against the bytes the reference encoder predicts (all CRC and length fields included)
+//!   G  60000..  2MG files of other programs built byte-wise (extents anywhere, non-UTF-8 text, stale fields)
 use crate::util::*;
 use a2kit::fs::Block;
 use a2kit::img::{self, names, DiskImage, DiskKind};
@@ -199,7 +206,8 @@ fn observe(img: &mut Box<dyn DiskImage>) -> (Obs, Vec<TrackGeo>) {
 // random writes
 
 fn payload(rng: &mut Rng, size: usize) -> Vec<u8> {
-    match rng.below(6) {
+    match rng.below(8) {
+        6 | 7 => gen_data(rng, size).0,                // shared shapes: two-periodic, k-periodic, runs, CR LF only, …
         0 => vec![rng.byte(); size],                   // uniform: the compressible case of IMD / TD0
         1 => vec![0; size],
         2 => { let mut v = vec![rng.byte(); size]; let i = rng.below(size); v[i] ^= 1 + rng.byte() % 255; v } // almost uniform
@@ -280,7 +288,7 @@ fn random_writes(img: &mut Box<dyn DiskImage>, cfg_typ: &str, geo: &[TrackGeo], 
 
 const LOREM: [&str; 12] = ["a2kit", "Disk 1, Side A", "ünïcödé", "日本語", "x", "", "The quick brown fox", "  padded  ", "tab-free", "1980", "Brøderbund", "<&\"'>"];
 
-fn leaves(meta: &str) -> Vec<(Vec<String>, String)> {
+pub(super) fn leaves(meta: &str) -> Vec<(Vec<String>, String)> {
     let mut v = Vec::new();
     if let Ok(j) = json::parse(meta) {
         let mut curs = a2kit::JsonCursor::new();
@@ -294,7 +302,7 @@ fn leaves(meta: &str) -> Vec<(Vec<String>, String)> {
 fn random_hex(rng: &mut Rng, nbytes: usize) -> String { hex::encode(rng.bytes(nbytes)) }
 
 /// keys that the source documents as read-only (accepted with a warning, value unchanged)
-fn is_ro(path: &[String]) -> bool {
+pub(super) fn is_ro(path: &[String]) -> bool {
     let p: Vec<&str> = path.iter().map(|s| s.as_str()).filter(|s| *s != "_raw").collect();
     match p.as_slice() {
         ["imd", "header"] => true,
@@ -308,7 +316,7 @@ fn is_ro(path: &[String]) -> bool {
 
 /// candidate (path, value, class) for one edit.  `class` names the input class for the distribution and
 /// for the signatures of the hazards that the generator exercises on purpose.
-fn candidate(typ: &str, lv: &[(Vec<String>, String)], rng: &mut Rng) -> (Vec<String>, String, &'static str) {
+pub(super) fn candidate(typ: &str, lv: &[(Vec<String>, String)], rng: &mut Rng) -> (Vec<String>, String, &'static str) {
     let p = |v: &[&str]| v.iter().map(|s| s.to_string()).collect::<Vec<String>>();
     let text = |rng: &mut Rng| -> String {
         let mut s = rng.pick(&LOREM[..]).to_string();
@@ -390,7 +398,7 @@ fn candidate(typ: &str, lv: &[(Vec<String>, String)], rng: &mut Rng) -> (Vec<Str
 }
 
 /// what `get_metadata` is expected to show for a value that was accepted
-fn normal(path: &[String], v: &str) -> String {
+pub(super) fn normal(path: &[String], v: &str) -> String {
     match path.last().map(|s| s.as_str()) {
         Some("creator") if path.len() == 3 && path[1] == "info" => v.trim_end().to_string(), // 32 bytes, space padded by the WOZ spec
         // TD0 stores line ends as NUL and loads them as LF: CR LF is normalised to LF when the notes are put
@@ -399,7 +407,7 @@ fn normal(path: &[String], v: &str) -> String {
     }
 }
 
-fn lookup(meta: &str, path: &[String]) -> Option<String> {
+pub(super) fn lookup(meta: &str, path: &[String]) -> Option<String> {
     let j = json::parse(meta).ok()?;
     let mut cur = &j;
     for k in path { if !cur.has_key(k) { return None; } cur = &cur[k.as_str()]; }
@@ -591,7 +599,8 @@ fn integrity(typ: &str, b: &[u8]) -> Result<(), String> {
         "2mg" => {
             if b.len() < 64 || &b[0..4] != b"2IMG" { return Err("2mg/bad-signature".into()); }
             let (hl, fmt, blocks, doff, dlen, coff, clen, roff, rlen) = (le16(&b[8..10]), le32(&b[12..16]), le32(&b[20..24]), le32(&b[24..28]), le32(&b[28..32]), le32(&b[32..36]), le32(&b[36..40]), le32(&b[40..44]), le32(&b[44..48]));
-            if hl != 64 || doff != 64 { return Err("2mg/data-offset-wrong".into()); }
+            if hl != 64 { return Err("2mg/header-length-field-wrong".into()); }
+            if doff != 64 { return Err("2mg/data-offset-wrong".into()); }
             if 64 + dlen + clen + rlen != b.len() { return Err("2mg/lengths-do-not-tile-file".into()); }
             if clen > 0 && coff != 64 + dlen { return Err("2mg/comment-offset-wrong".into()); }
             if clen == 0 && coff != 0 { return Err("2mg/comment-offset-wrong".into()); }
@@ -1036,7 +1045,8 @@ fn case_loaded(ctx: &mut Ctx, idx: usize, rng: &mut Rng) {
         1 => { // TD0 without advanced compression, no comment, all three sector encodings
             let shift = 1u8;
             let mut recs = Vec::new();
-            while recs.len() < 5 { let r = td_record(rng, shift); if td_unpack_ref(shift, &r).is_some() { recs.push(r); } }
+            // `create_img_from_bytestream` does not look at streams shorter than 100 bytes
+            while recs.len() < 5 || td_image(shift, &recs).len() < 100 { let r = td_record(rng, shift); if td_unpack_ref(shift, &r).is_some() { recs.push(r); } }
             ("td0/loaded-normal-compression", "td0", td_image(shift, &recs), "td0")
         }
         2 => { // WOZ2 with META before WRIT-like extra chunks appended by another tool (creator order INFO,TMAP,TRKS kept)
@@ -1069,7 +1079,7 @@ fn case_loaded(ctx: &mut Ctx, idx: usize, rng: &mut Rng) {
     let r = guarded(|| a2kit::create_img_from_bytestream(&bytes, Some(ext)).map_err(|e| e.to_string()));
     let mut img = match r {
         Ok(Ok(i)) => i,
-        Ok(Err(e)) => { out.count(&format!("loaded-refused:{}", label)); out.oracle(false, "load-handmade", &format!("c09/{}/handmade-stream-refused", label), &format!("C idx={} err={}", idx, e)); return; }
+        Ok(Err(e)) => { out.count(&format!("loaded-refused:{}", label)); out.oracle(false, "load-handmade", &format!("c09/{}/handmade-stream-refused", label), &format!("C idx={} err={} file={}", idx, e, hx(&bytes[..bytes.len().min(3000)]))); return; }
         Err(p) => { out.oracle(false, "load-handmade", &format!("c09/{}/handmade-stream-panic:{}", label, site(&p)), &format!("C idx={} panic={}", idx, p)); return; }
     };
     let case = format!("C idx={} cfg={} len={}", idx, label, bytes.len());
@@ -1176,6 +1186,127 @@ fn case_directed(ctx: &mut Ctx, idx: usize, rng: &mut Rng) {
 }
 
 // ------------------------------------------------------------------------------------------------
+// stream G: 2MG files written by OTHER programs, built byte-wise here (nothing of a2kit's writer is used): any data
+// offset, comment / creator extents in any order, overlapping, inside the data, ending at EOF-1 / EOF / EOF+1 / far beyond,
+// zero length with a non-zero offset, text that is ASCII, multi-byte UTF-8 or not UTF-8 at all (Latin-1 / MacRoman),
+// stale or absurd block counts, lock bit and volume number in the flags, non-standard header length / version fields.
+// Loaded with the real `from_bytes`, saved: the header a2kit writes, the length and the hash of the file are compared
+// with the Lean model (`c09 mgforeign`), the offsets and lengths of the saved file against the independent field
+// check of `integrity`, then the whole round-trip oracle (reload with / without hint, second save identical).
+
+enum Piece { Bytes(Vec<u8>), Zeros(usize) }
+
+/// probe of the tree being checked (DESIGN §2, code as written / as repaired): does `to_bytes` reset the header-length
+/// field of a loaded file to the 64 bytes it writes?
+fn probe_2mg_fixes_header_len() -> bool {
+    let mut h: Vec<u8> = b"2IMGXGS!".to_vec();
+    h.extend_from_slice(&[65, 0, 1, 0]); h.extend_from_slice(&0u32.to_le_bytes()); h.extend_from_slice(&[254, 1, 0, 0]);
+    h.extend_from_slice(&280u32.to_le_bytes()); h.extend_from_slice(&64u32.to_le_bytes()); h.extend_from_slice(&143360u32.to_le_bytes());
+    h.extend_from_slice(&[0; 32]);
+    h.resize(64 + 143360, 0);
+    match guarded(|| img::dot2mg::Dot2mg::from_bytes(&h).map(|mut i| i.to_bytes())) { Ok(Ok(b)) => b.len() > 10 && b[8] == 64 && b[9] == 0, _ => false }
+}
+
+fn case_foreign_2mg(ctx: &mut Ctx, idx: usize, rng: &mut Rng, fix_len: bool) {
+    let out = &mut ctx.out;
+    let fmt: u32 = *rng.pick(&[0u32, 0, 0, 1, 1, 1, 1, 3]);
+    let blocks: usize = if fmt == 0 { *rng.pick(&[280usize, 280, 280, 320, 400]) } else { *rng.pick(&[280usize, 280, 800, 1600]) };
+    let data_len = match rng.below(20) { 0 => blocks * 512 + 1, 1 => 279 * 512, 2 => blocks * 512 + 256, _ => blocks * 512 };
+    let data_off = *rng.pick(&[64usize, 64, 64, 64, 65, 128, 512]);
+    let texts: [&[u8]; 8] = [b"Disk 1 of the accounting package", b"x", "Fran\u{e7}ois \u{2014} c\u{f4}t\u{e9} A".as_bytes(), b"caf\xe9 au lait (Latin-1)", b"\xd0\xcf\x11\xe0 MacRoman \x8e\x8f", b"", b"two\r\nlines", "\u{65e5}\u{672c}\u{8a9e}".as_bytes()];
+    let comment = rng.pick(&texts[..]).to_vec();
+    let creator = if rng.chance(50) { let n_ = rng.below(40); rng.bytes(n_) } else { rng.pick(&texts[..]).to_vec() };
+    let class = rng.below(11);
+    // layout of the tail: what follows the data, and what the header says about it
+    let end_data = data_off + data_len;
+    let (mut tail, mut coff, mut clen, mut roff, mut rlen): (Vec<u8>, usize, usize, usize, usize);
+    match class {
+        1 => { tail = [creator.clone(), comment.clone()].concat(); roff = end_data; rlen = creator.len(); coff = end_data + creator.len(); clen = comment.len(); }
+        _ => { tail = [comment.clone(), creator.clone()].concat(); coff = end_data; clen = comment.len(); roff = end_data + comment.len(); rlen = creator.len(); }
+    }
+    match class {
+        2 => { clen = comment.len() + creator.len() + 1; }                                       // comment extent one byte past EOF
+        3 => { clen = 0; coff = end_data + 7; }                                                  // zero length, non-zero offset
+        4 => { rlen += 1; }                                                                      // creator extent one byte past EOF
+        5 => { let n_ = 1 + rng.below(9); tail.extend(rng.bytes(n_)); }                                       // trailing bytes nobody points at
+        6 => { coff = 0; clen = 0; roff = 0; rlen = 0; }                                         // texts present but not announced
+        7 => { roff = 0xffff_fff0; rlen = 32; }                                                  // far beyond the file
+        8 => { coff = data_off + 100; clen = 20; }                                               // an extent inside the data
+        9 => { roff = coff + clen / 2; }                                                         // overlapping extents
+        10 => { if !tail.is_empty() { tail.pop(); } }                                            // file truncated by one byte
+        _ => {}
+    }
+    let hdr_blocks: u32 = if fmt == 1 { if rng.chance(12) { blocks as u32 + 1 } else { (data_len / 512) as u32 } } else { *rng.pick(&[0u32, 280, 0xdead_beef]) };
+    let vol = rng.byte();
+    let flags: u32 = (vol as u32) | if rng.chance(60) { 0x100 } else { 0 } | if rng.chance(15) { 0x8000_0000 } else { 0 };
+    let mut h: Vec<u8> = b"2IMG".to_vec();
+    h.extend_from_slice(rng.pick(&[b"XGS!", b"CTKG", b"WOOF", b"!nfc"]).as_slice());
+    h.extend_from_slice(&(if rng.chance(85) { 64u16 } else { data_off as u16 }).to_le_bytes());
+    h.extend_from_slice(&(if rng.chance(90) { 1u16 } else { rng.below(4) as u16 }).to_le_bytes());
+    h.extend_from_slice(&fmt.to_le_bytes());
+    h.extend_from_slice(&flags.to_le_bytes());
+    h.extend_from_slice(&hdr_blocks.to_le_bytes());
+    h.extend_from_slice(&(data_off as u32).to_le_bytes());
+    h.extend_from_slice(&(data_len as u32).to_le_bytes());
+    h.extend_from_slice(&(coff as u32).to_le_bytes());
+    h.extend_from_slice(&(clen as u32).to_le_bytes());
+    h.extend_from_slice(&(roff as u32).to_le_bytes());
+    h.extend_from_slice(&(rlen as u32).to_le_bytes());
+    h.extend(if rng.chance(70) { vec![0u8; 16] } else { rng.bytes(16) });
+    assert_eq!(h.len(), 64);
+    // the data: zeros with a few islands of other bytes (sent to the model as pieces)
+    let mut pieces: Vec<Piece> = vec![Piece::Bytes(h)];
+    if data_off > 64 { pieces.push(Piece::Bytes(rng.bytes(data_off - 64))); }
+    let mut left = data_len;
+    while left > 0 {
+        let z = rng.range(1, left.min(60000));
+        if rng.chance(35) { let n = z.min(rng.range(1, 700)); pieces.push(Piece::Bytes(gen_data(rng, n).0)); left -= n; } else { pieces.push(Piece::Zeros(z)); left -= z; }
+    }
+    pieces.push(Piece::Bytes(tail));
+    let mut file: Vec<u8> = Vec::new();
+    let mut toks: Vec<String> = Vec::new();
+    for p in &pieces { match p { Piece::Bytes(b) => { if !b.is_empty() { file.extend_from_slice(b); toks.push(hx(b)); } } Piece::Zeros(n) => { file.resize(file.len() + n, 0); toks.push(format!("z{}", n)); } } }
+    // what the two extents hold (independently of a2kit): text, or nothing when out of range or not UTF-8
+    let extent = |off: usize, len: usize| -> (bool, String) {
+        if off + len > file.len() { (true, String::new()) } else { match std::str::from_utf8(&file[off..off + len]) { Ok(s) => (true, s.to_string()), Err(_) => (false, String::new()) } }
+    };
+    let (vc, want_comment) = extent(coff, clen);
+    let (vr, want_creator) = extent(roff, rlen);
+    let case = format!("G idx={} 2mg-foreign fmt={} data={}@{} blocks-field={} comment={}@{} creator={}@{} file={} class={} flags={:08x}", idx, fmt, data_len, data_off, hdr_blocks, clen, coff, rlen, roff, file.len(), class, flags);
+    let req = format!("c09 mgforeign {} {} {} {}", toks.join(","), vc as u8, vr as u8, fix_len as u8);
+    let loaded = guarded(|| img::dot2mg::Dot2mg::from_bytes(&file));
+    match loaded {
+        Err(p) => { out.q(&req, "panic"); out.oracle(false, "load-foreign-no-panic", &format!("c09/2mg/foreign/load-panic:{}", site(&p)), &format!("{} panic={}", case, p)); }
+        Ok(Err(_)) => { out.q(&req, "err"); out.count("2mg-foreign:refused"); }
+        Ok(Ok(i)) => {
+            out.count(&format!("2mg-foreign:loaded:class{}", class));
+            let mut img: Box<dyn DiskImage> = Box::new(i);
+            let meta = img.get_metadata(None);
+            let got_c = lookup(&meta, &["2mg".to_string(), "comment".to_string()]).unwrap_or_default();
+            let got_r = lookup(&meta, &["2mg".to_string(), "creator_info".to_string()]).unwrap_or_default();
+            out.oracle(got_c == want_comment && got_r == want_creator, "foreign-strings-read", "c09/2mg/foreign/strings-differ", &format!("{} comment want {:?} got {:?} creator want {:?} got {:?}", case, want_comment, got_c, want_creator, got_r));
+            match guarded(|| img.to_bytes()) {
+                Ok(b1) => {
+                    out.q(&req, &format!("{} {} {}", hx(&b1[..64.min(b1.len())]), b1.len(), fnv(&b1)));
+                    // the strings are where the saved header says they are
+                    let f = |o: usize| le32(&b1[o..o + 4]);
+                    let slice = |off: usize, len: usize| if off + len <= b1.len() { Some(b1[off..off + len].to_vec()) } else { None };
+                    let ok = slice(f(32), f(36)) == Some(want_comment.as_bytes().to_vec()) && slice(f(40), f(44)) == Some(want_creator.as_bytes().to_vec())
+                        && b1.len() == 64 + data_len + want_comment.len() + want_creator.len() && f(24) == 64 && f(28) == data_len;
+                    out.oracle(ok, "saved-offsets-and-lengths", "c09/2mg/foreign/saved-offsets-or-lengths-wrong", &format!("{} saved: data {}@{} comment {}@{} creator {}@{} file {}", case, f(28), f(24), f(36), f(32), f(44), f(40), b1.len()));
+                }
+                Err(p) => { out.q(&req, "panic"); out.oracle(false, "to_bytes-no-panic", &format!("c09/2mg/foreign/to_bytes-panic:{}", site(&p)), &format!("{} panic={}", case, p)); return; }
+            }
+            // a fresh object from the same file through the whole oracle
+            if let Ok(Ok(j)) = guarded(|| img::dot2mg::Dot2mg::from_bytes(&file)) {
+                let mut j: Box<dyn DiskImage> = Box::new(j);
+                roundtrip_oracle(out, &mut j, "2mg/foreign", "2mg", false, &[Some("2mg"), None], &case, &[]);
+            }
+        }
+    }
+    out.case(case.as_bytes(), true);
+    out.sample(&case);
+}
 
 /// last line of defence: a panic that escaped the per-call guards of a case (real code reached through an unguarded
 /// call, or a slip of the harness itself) becomes a failing verdict with a replayable index instead of killing the run
@@ -1217,6 +1348,21 @@ pub fn run(ctx: &mut Ctx) {
         let mut r = rng.fork(idx as u64);
         if !ctx.out.wants(idx) { continue; }
         if let Err(p) = guarded(|| case_directed(ctx, idx, &mut r)) { escaped(ctx, "E", idx, &p); }
+    }
+    for i in 0..ctx.n(120, 2400) {
+        let idx = 50000 + i;
+        let mut r = rng.fork(idx as u64);
+        if !ctx.out.wants(idx) { continue; }
+        let res = guarded(|| if i % 3 == 0 { super::c08::mix::imd_case(ctx, "c09", idx, &mut r, true) } else { super::c08::mix::td0_case(ctx, "c09", idx, &mut r, true) });
+        if let Err(p) = res { escaped(ctx, "F", idx, &p); }
+    }
+    let fix_len = probe_2mg_fixes_header_len();
+    ctx.out.count(if fix_len { "probe:2mg-header-len-reset-on-save" } else { "probe:2mg-header-len-kept-on-save" });
+    for i in 0..ctx.n(36, 600) {
+        let idx = 60000 + i;
+        let mut r = rng.fork(idx as u64);
+        if !ctx.out.wants(idx) { continue; }
+        if let Err(p) = guarded(|| case_foreign_2mg(ctx, idx, &mut r, fix_len)) { escaped(ctx, "G", idx, &p); }
     }
     for i in 0..ctx.n(2, 9) {
         let idx = 30000 + i;
